@@ -321,6 +321,7 @@ def blocks(seed):
         "b": b"jumps over the lazy dog, 31 byt",
         "c": b"\0\r\n\r\n--x\r\n\0\xff--ab\r",
         "d": prng_bytes(29, seed),
+        "e": bytes([0x21 + seed % 90]),     # one byte: a chunk whose extent starts and ends at the same offset
     }
     assert [len(b[k]) for k in "abcd"] == [23, 31, 17, 29], [len(b[k]) for k in "abcd"]
     return b
